@@ -146,6 +146,28 @@ CLAIMED.update({
         technique="Lean 4 proof (inductive invariant over all histories + functional specification of retrieve_entity / deserialize) on a hand-written model; differential correspondence check + executable uniqueness/merge/mark monitors",
         design="7/C15", note=SL_NOTE + " Out of the property's quantifier and not claimed: removing a marker component directly from a live entity."),
 })
+CLAIMED.update({
+    "C13": dict(
+        text="Lean theorems on the model of restrict()/restrict_mut() joins and the PairedStorage item API (World.rjoinLoop): join_refines_reference (the whole join, for every storage representing any map and every action "
+             "list, equals a pure reference semantics on the plain map; no panic; every other storage and field unchanged); visits_exactly_the_members (indices = mask.toList, strictly ascending, each once); "
+             "read_equals_direct_lookup; write_changes_only_that_entity; other_entity_lookup_follows_storage_rule (get_other / get_other_mut ARE Storage::get / get_mut on that handle, so dead and stale handles read as absent and "
+             "change nothing, citing C03); membership_never_changes (literal mask equality); modification_events_only_for_mutable_fetches (flagged: one Modified per get_mut / hitting get_other_mut; deref-flagged: one per mutable "
+             "dereference; nothing for skip/get/get_other, misses and read-only views). Correspondence: restricted joins with scripted per-item actions (skip/get/get_mut+write/get_other/get_other_mut with live, dead, stale and "
+             "component-less handles) on the real World via lend_join / join, results and event streams compared with the model and the abstract monitor.",
+        technique="Lean 4 proof (refinement of the join loop to a reference semantics on plain maps, induction over the visited indices) on a hand-written model + differential correspondence check + executable monitor",
+        design="7/C13", note=STORE_NOTE + " Written values for the null kind must be the unit value (actsOk side condition, vacuous for all other kinds). The parallel variant of the restricted join is covered by C07."),
+    "C19": dict(
+        text="Lean theorems on the world model under a panicking destructor (Model/Fault.lean: the n-th destructor call of a non-zero value panics inside refused insert / unused or_insert argument / entity deletion by any path / "
+             "maintain / clear / world teardown, with the state each site leaves behind read off the Rust): fault_leaves_world_well_formed (for EVERY reachable world, op, n and resolution of which remaining values std's containers "
+             "still destroyed, the world invariant holds again: allocator coupled to the entity timeline, every storage well formed, every storage in the meta table; only the indices whose purge was cut short are exempted from "
+             "components-only-at-occupied-indices); continuation_stays_well_formed (every further history keeps it, so every later op returns normally and refines the plain map of C04 — nothing can read a moved-out or destroyed slot); "
+             "purge_step_removes_what_it_destroys (bit cleared and value moved out before it is destroyed: no double drop); interrupted_purge_frame; interrupted_clear_reports_empty (mask swapped out first); "
+             "interrupted_bulk_destroys_subset. Correspondence: the harness arms a panicking Drop at position n (instrumented components), catches the unwind, prints the destroyed values and a full dump of every storage; the "
+             "model predicts result, destroyed multiset and dump; the monitor checks no value destroyed twice, no destroyed value visible in any dump/lookup, and that the rest of the history (through drop_world) conforms.",
+        technique="Lean 4 proof (world invariant with an exemption set, re-established after every interrupted operation and preserved by every continuation) on a hand-written fault model + fault-injection differential check + ledger/exposure monitor",
+        design="7/C19", note=STORE_NOTE + " Zero values (unit value of the null storage, default fillers) never panic in model and harness; faults inside lazily queued actions are not modelled nor injected; which of the remaining values "
+             "Vec/HashMap/BTreeMap::clear and the world's resource map still destroy after a panic is taken from the run (required to be a sub-multiset of what the complete operation destroys). A second panic during unwinding aborts and is outside the property."),
+})
 checks = []
 for pid in ALL:
     if pid in CLAIMED:
